@@ -213,8 +213,41 @@ def gen(args) -> list:
         typ = rnd.choice(TYPES)
         try:
             pa = g.params(typ)
-            pb = list(pa) if rnd.random() < 0.35 else g.params(typ)
-            pc = list(rnd.choice([pa, pb])) if rnd.random() < 0.35 else g.params(typ)
+
+            def vary(p):
+                """A copy of p, a copy differing in exactly one component, or fresh parameters."""
+                c = rnd.random()
+                if c < 0.3:
+                    return list(p)
+                if c < 0.65:
+                    q2 = g.params(typ)
+                    i = rnd.randrange(len(p))
+                    out = list(p)
+                    out[i] = q2[i]
+                    return out
+                return g.params(typ)
+
+            pb = vary(pa)
+            pc = vary(rnd.choice([pa, pb]))
+            if typ in ("LocalDate", "LocalDateTime", "YearMonth", "OffsetDate", "OffsetDateTime", "ZonedDateTime", "DateInterval") and rnd.random() < 0.4:
+                # three dates of one calendar year, in months chosen independently (every month order gets compared)
+                cal = g.cals[pa[0]]
+                yy = rnd.randint(max(cal.min_year + 1, 1), min(cal.max_year - 1, 9000))
+                if cal.id.startswith("Hebrew"):
+                    yy = rnd.choice([5784, 5782, 5779, 5785, yy])
+                from pyoda_time import LocalDate as _LD
+
+                def in_year(p):
+                    m = rnd.randint(1, cal.get_months_in_year(yy))
+                    d = rnd.randint(1, cal.get_days_in_month(yy, m))
+                    out = list(p)
+                    out[0] = pa[0]
+                    out[1] = _LD(yy, m, d, cal)._days_since_epoch
+                    return out
+
+                pa, pb, pc = in_year(pa), in_year(pb), in_year(pc)
+                if rnd.random() < 0.3:
+                    pc = list(pb)
             vals = [g.make(typ, p) for p in (pa, pb, pc)]
         except Exception:  # noqa: BLE001 - parameters did not form a value (e.g. Feb 30): not an event
             continue
